@@ -1,6 +1,7 @@
 package rules
 
 import (
+	"os"
 	"fmt"
 	"go/token"
 	"go/types"
@@ -99,7 +100,7 @@ func checkC07(c *core.Ctx, l *core.Ledger) {
 		} else {
 			lk := lookups[0].(ssa.CallInstruction)
 			// whole name
-			if arg := core.Sym(lk.Common().Args[0]); !strings.HasSuffix(arg, ".Name") {
+			if arg := core.Sym(lk.Common().Args[0]); !strings.HasSuffix(arg, ".Name") && !wholeNameThenRest(lk.Common().Args[0]) {
 				why = append(why, "the first lookup is not on the reference's whole name: "+arg)
 			}
 			fe := failureEdges(lookups[0])
@@ -124,14 +125,26 @@ func checkC07(c *core.Ctx, l *core.Ledger) {
 					}
 				}
 			})
-			if !rec {
+			if !rec && !loopContinuesWithRest(f, splits, incl) {
 				why = append(why, "no recursive resolution of the part after the first '.' in the included scope found")
 			}
 			// success of the lookup links and returns the found definition
 			if r.lookup == "LookupConstant" {
 				enums := callsNamed(f, isStaticCall("compile", "lookupEnum"))
 				if len(enums) != 1 {
-					why = append(why, "enum-item lookup not found")
+					// the same test written in place: look the module-part up as a type and narrow it to an enum
+					if en, noEdges := inlineEnumLookup(f); en != nil {
+						for _, s := range incl {
+							if !core.AllPathsThroughEdges(f, s.Block(), noEdges) {
+								why = append(why, "the included scope is consulted without the enum-item lookup having failed")
+							}
+						}
+						if !core.AllPathsThroughEdges(f, en.Block(), fe) {
+							why = append(why, "the enum-item lookup is reachable without the constant lookup having failed")
+						}
+					} else {
+						why = append(why, "enum-item lookup not found")
+					}
 				} else {
 					// getIncludedScope only after the enum lookup said no
 					en := enums[0].(ssa.Value)
@@ -673,4 +686,145 @@ func stripIface(v ssa.Value) ssa.Value {
 			return v
 		}
 	}
+}
+
+// wholeNameThenRest: v is read from a cell (or phi) that starts as the
+// reference's .Name and is only ever replaced by the second result of
+// splitInclude (the loop form of "resolve the rest in the included scope").
+func wholeNameThenRest(v ssa.Value) bool {
+	okInit, okUpd := false, true
+	check := func(val ssa.Value) {
+		s := core.Sym(val)
+		switch {
+		case strings.HasSuffix(s, ".Name") && !strings.Contains(s, "splitInclude"):
+			okInit = true
+		case strings.Contains(s, "splitInclude(") && strings.Contains(s, "#1"):
+		default:
+			// a whole struct value stored into the cell (src = ServiceReference{Name: iname})
+			if strings.Contains(s, "lit{") && strings.Contains(s, "Name=") && strings.Contains(s, "splitInclude(") {
+				return
+			}
+			if p, isP := val.(*ssa.Parameter); isP && p != nil {
+				okInit = true
+				return
+			}
+			if k, isK := val.(*ssa.Const); isK && k.Value == nil {
+				return // the cell is zeroed before its fields are assigned (a fresh composite value)
+			}
+			if os.Getenv("VDEBUG") != "" {
+				fmt.Fprintf(os.Stderr, "wholeNameThenRest: unexpected update %T %s\n", val, s)
+			}
+			okUpd = false
+		}
+	}
+	switch x := v.(type) {
+	case *ssa.Phi:
+		for _, e := range x.Edges {
+			check(e)
+		}
+	case *ssa.UnOp:
+		root := x.X
+		field := -1
+		if fa, ok := root.(*ssa.FieldAddr); ok {
+			root, field = fa.X, fa.Field
+		}
+		al, ok := root.(*ssa.Alloc)
+		if !ok {
+			return false
+		}
+		for _, r := range *al.Referrers() {
+			switch y := r.(type) {
+			case *ssa.Store:
+				if y.Addr == ssa.Value(al) {
+					check(y.Val) // the whole cell (initial parameter value, or a new reference value)
+				}
+			case *ssa.FieldAddr:
+				if y.Field != field {
+					continue // other fields of the reference (line, column) do not matter
+				}
+				for _, rr := range *y.Referrers() {
+					if st, ok := rr.(*ssa.Store); ok && st.Addr == ssa.Value(y) {
+						check(st.Val)
+					}
+				}
+			}
+		}
+	default:
+		return false
+	}
+	return okInit && okUpd
+}
+
+// loopContinuesWithRest: the function loops, and inside the loop the name cell
+// is replaced by splitInclude's second result and the scope cell by the result
+// of getIncludedScope.
+func loopContinuesWithRest(f *ssa.Function, splits, incl []ssa.Instruction) bool {
+	cyc := core.CyclicBlocks(f)
+	if len(splits) == 0 || len(incl) == 0 || !cyc[splits[0].Block()] || !cyc[incl[0].Block()] {
+		return false
+	}
+	nameUpd, scopeUpd := false, false
+	core.Instrs(f, func(in ssa.Instruction) {
+		if !cyc[in.Block()] {
+			return
+		}
+		switch x := in.(type) {
+		case *ssa.Store:
+			s := core.Sym(x.Val)
+			if strings.Contains(s, "splitInclude(") && strings.Contains(s, "#1") {
+				nameUpd = true
+			}
+			if strings.Contains(s, "getIncludedScope(") {
+				scopeUpd = true
+			}
+		case *ssa.Phi:
+			for _, e := range x.Edges {
+				s := core.Sym(e)
+				if strings.Contains(s, "splitInclude(") && strings.Contains(s, "#1") {
+					nameUpd = true
+				}
+				if strings.Contains(s, "getIncludedScope(") {
+					scopeUpd = true
+				}
+			}
+		}
+	})
+	return nameUpd && scopeUpd
+}
+
+// inlineEnumLookup finds `t, err := scope.LookupType(mname); enum, ok := t.(*EnumSpec)`
+// and returns the lookup and the edges on which no enum was found.
+func inlineEnumLookup(f *ssa.Function) (ssa.Instruction, []core.Edge) {
+	var look ssa.Instruction
+	var no []core.Edge
+	core.Instrs(f, func(in ssa.Instruction) {
+		ta, ok := in.(*ssa.TypeAssert)
+		if !ok || !ta.CommaOk || core.RecvTypeName(ta.AssertedType) != "EnumSpec" {
+			return
+		}
+		ex, ok := ta.X.(*ssa.Extract)
+		if !ok {
+			return
+		}
+		call, ok := ex.Tuple.(*ssa.Call)
+		if !ok || !call.Call.IsInvoke() || call.Call.Method.Name() != "LookupType" {
+			return
+		}
+		if !strings.Contains(core.Sym(call.Call.Args[0]), "splitInclude(") {
+			return
+		}
+		look = call
+		// "no enum" = the lookup failed, or the assertion failed
+		no = append(no, failureEdges(call)...)
+		for _, r := range *ta.Referrers() {
+			if e2, ok := r.(*ssa.Extract); ok && e2.Index == 1 {
+				for _, rr := range *e2.Referrers() {
+					if ifi, ok := rr.(*ssa.If); ok {
+						no = append(no, core.Edge{From: ifi.Block(), To: ifi.Block().Succs[1]})
+					}
+				}
+			}
+		}
+	})
+	return look, no
 }
